@@ -14,7 +14,7 @@ import sqlite3
 from harness import core, execb, tlc
 from harness.c11 import gen
 
-SHAPES = ["top", "subquery-from", "subquery-from-topn", "subquery-in", "union", "intersect", "except"]
+SHAPES = ["top", "subquery-from", "subquery-from-topn", "subquery-in", "union", "intersect", "except", "union-in", "union-from"]
 SCHEMA = ["CREATE TABLE t1 (a INTEGER, b INTEGER, c TEXT)", "CREATE UNIQUE INDEX t1a ON t1 (a)", "CREATE TABLE t2 (a INTEGER, b INTEGER, c TEXT)",
           "CREATE TABLE t3 (a INTEGER, b INTEGER, c TEXT)", "CREATE TABLE t6 (a INTEGER, b INTEGER, c TEXT)", "CREATE TABLE ot (k INTEGER)"]
 TABLES = ["t1", "t2", "t3", "t6", "ot"]
@@ -83,6 +83,13 @@ def place(env, Q, q, shape):
         return Q.from_(q.as_("sq")).select("a").limit(2)
     if shape == "subquery-in":
         return Q.from_(o).select(o.k).where(o.k.isin(q)).orderby(1)
+    if shape == "correlated-in":
+        t1 = P.Table("t1")
+        return Q.from_(t1).select(t1.a).where(t1.b.isin(q)).orderby(1)
+    if shape == "union-in":     # an (unwrapped) set operation as the IN container / as a derived table
+        return Q.from_(o).select(o.k).where(o.k.isin(q.union(other))).orderby(1)
+    if shape == "union-from":
+        return Q.from_(q.union_all(other).as_("sq")).select("a").orderby(1)
     if shape == "union":
         return q.union(other)
     if shape == "intersect":
@@ -155,11 +162,16 @@ def run(tier: str) -> int:
     seed, ndb = core.seed(), (6 if tier == "quick" else 12)
     for p in progs:
         shapes = SHAPES if p["kind"].startswith("select") or p["kind"] == "group" else ["top"]
+        if p["kind"] == "select-correlated":
+            shapes = ["correlated-in"]
         for shape in shapes:
             ms = {c["m"] for c in p["hist"]}
             if shape == "subquery-from-topn":
                 if len(_selects(p["hist"])) != 1 or "orderby" not in ms or ms & {"limit", "offset", "slice"}:
                     continue  # (a sorted, unpaginated, one-column derived table)
+            elif shape == "correlated-in":
+                if len(_selects(p["hist"])) != 1 or ms & {"limit", "offset", "slice", "orderby"}:
+                    continue
             elif shape != "top" and (len(_selects(p["hist"])) != 1 or ms & {"limit", "offset", "slice", "orderby"}):
                 continue  # nesting shapes need a one-column, unpaginated operand
             q = dict(p)
@@ -236,6 +248,12 @@ def shaped_ref(shape, ref):
         return 'SELECT "sq"."a" FROM (' + ref + ') AS "sq" ORDER BY 1'
     if shape == "subquery-from-topn":
         return 'SELECT "sq"."a" FROM (' + ref + ') AS "sq" LIMIT 2'
+    if shape == "correlated-in":
+        return 'SELECT "t1"."a" FROM "t1" WHERE ("t1"."b" IN (' + ref + ')) ORDER BY 1'
+    if shape == "union-in":
+        return 'SELECT "ot"."k" FROM "ot" WHERE ("ot"."k" IN (' + ref + ' UNION SELECT "ot"."k" FROM "ot")) ORDER BY 1'
+    if shape == "union-from":
+        return 'SELECT "sq"."a" FROM (' + ref + ' UNION ALL SELECT "ot"."k" FROM "ot") AS "sq" ORDER BY 1'
     if shape == "subquery-in":
         return 'SELECT "ot"."k" FROM "ot" WHERE ("ot"."k" IN (' + ref + ')) ORDER BY 1'
     return ref + {"union": " UNION", "intersect": " INTERSECT", "except": " EXCEPT"}[shape] + ' SELECT "ot"."k" FROM "ot"'
